@@ -8,6 +8,7 @@ import (
 	"net"
 	"sync"
 	"sync/atomic"
+	"syscall"
 	"time"
 
 	"verifharness/lab"
@@ -107,6 +108,7 @@ func c11Process(c *vk.Ctx, r *rand.Rand, round int) bool {
 		}
 		return cf
 	}
+	retired := map[string]KeySpec{} // keys that were configured on the retained address at some point and are not any more
 	cur := mkConf(0, true)
 	overlap := time.Duration(80+r.Intn(150)) * time.Millisecond
 	srv, err := StartServer(c.RunDir, cur, ServerOpts{Env: []string{"VERIF_POINT_newStarted=" + overlap.String()}, UDPTimeout: 2 * time.Second})
@@ -356,7 +358,20 @@ func c11Process(c *vk.Ctx, r *rand.Rand, round int) bool {
 		}
 		c.Progress("C11 round=%d reload %d/%d conflict=%v", round, k, K, conflict)
 		w := window{a: time.Now()}
+		burst := !conflict && k%4 == 2
+		if burst {
+			// two signals in quick succession: the reloads must not run into each other (the second may
+			// be coalesced with the first, or run after it)
+			atomicWrite(srv.CfgPath, []byte(next.YAML()))
+			syscall.Kill(srv.Pid, syscall.SIGHUP)
+			time.Sleep(time.Duration(r.Intn(3000)) * time.Microsecond)
+		}
 		res, err := srv.Reload([]byte(next.YAML()), 60*time.Second)
+		if burst && err == nil {
+			// a possible second completion marker belongs to the same window
+			srv.WaitLog([]string{"Stopped all listeners for running config", "Failed to update server"}, 700*time.Millisecond)
+			c.Count("sighup_bursts", 1)
+		}
 		w.b = time.Now()
 		windows = append(windows, w)
 		if conflict && err == nil {
@@ -375,7 +390,13 @@ func c11Process(c *vk.Ctx, r *rand.Rand, round int) bool {
 			wg.Wait()
 			return false
 		}
+		for _, kk := range retainedKeys(cur, legacy) {
+			retired[kk.ID] = kk
+		}
 		cur = next
+		for _, kk := range retainedKeys(cur, legacy) {
+			delete(retired, kk.ID)
+		}
 		c.Count("reloads", 1)
 		time.Sleep(time.Duration(60+r.Intn(200)) * time.Millisecond)
 	}
@@ -475,6 +496,24 @@ func c11Process(c *vk.Ctx, r *rand.Rand, round int) bool {
 		}
 	}
 	c.Count("datagrams_exactly_once", int64(len(ids)))
+	// no earlier generation is still serving the retained address: keys that were dropped along
+	// the way are refused now, every time (a forgotten generation would accept them now and then)
+	nRetired := 0
+	for _, kk := range retired {
+		if nRetired >= 4 {
+			break
+		}
+		nRetired++
+		for rep := 0; rep < 6; rep++ {
+			caseN := nextID(c.Batch)
+			got, _, err := tcpExchange(retained, randSrc4(r), kk, randBytes(r, kk.Codec().C.SaltSize), caseIP4(caseN&0xffffff), hub.Port, putU64(caseN), 20*time.Second)
+			if err == nil && len(got) == 8 {
+				c.Violation("C11/key-of-a-replaced-configuration-still-authenticates-on-the-retained-address", map[string]any{"key": kk.ID, "attempt": rep})
+				return false
+			}
+		}
+		c.Count("retired_keys_refused", 1)
+	}
 	// long-lived relays
 	if v := midFail.Load(); v != nil {
 		c.Violation("C11/mid-transfer-relay-interrupted-by-reload", v)
@@ -526,6 +565,21 @@ func c11Process(c *vk.Ctx, r *rand.Rand, round int) bool {
 		c.Sample(map[string]any{"reloads": K, "clients": nClients, "exchanges": len(exchanges), "started_inside_window": inside, "udp_datagrams": len(ids), "overlap_ms": overlap.Milliseconds()})
 	}
 	return true
+}
+
+// retainedKeys lists the keys configured for the retained address.
+func retainedKeys(cf ConfSpec, legacy bool) []KeySpec {
+	if legacy {
+		var out []KeySpec
+		for _, k := range cf.Legacy {
+			out = append(out, k.KeySpec)
+		}
+		return out
+	}
+	if len(cf.Services) > 0 {
+		return cf.Services[0].Keys
+	}
+	return nil
 }
 
 // c11InProcess: the listener of a StreamServe closes (what a reload does to the old
